@@ -18,7 +18,11 @@ import (
 func VerifC16Keccak(data ...[]byte) []byte {
 	var all []byte
 	for _, d := range data {
-		all = append(all, d...)
+		// (copy into a buffer of the concrete length: the input may be the
+		// symbolic-length result of big.Int.Bytes())
+		tmp := make([]byte, len(d))
+		copy(tmp, d)
+		all = append(all, tmp...)
 	}
 	return vs.UF("keccak256", 32, all)
 }
@@ -86,6 +90,23 @@ func VerifC16_NoFalseNegative() {
 		vs.Assert(bloom == Bloom{}, "bloom of no logs is empty")
 	}
 	vs.Observe("items", n)
+}
+
+// VerifC16_BloomAdd: Bloom.Add(d) makes Test(d) and TestBytes(d.Bytes()) true
+// and keeps every bit that was set before (prior bloom: empty if param
+// prior = 0, arbitrary if 1; an arbitrary d below 2^bits).
+func VerifC16_BloomAdd() {
+	var b Bloom
+	if vs.Param("prior") != 0 {
+		copy(b[:], vs.BytesN("bloom", BloomByteLength))
+	}
+	old := b
+	d := vs.BigU("d", vs.Param("bits"))
+	b.Add(d)
+	ok := c16And(b.Test(d), b.TestBytes(d.Bytes()))
+	nb, ob := b.Big(), old.Big()
+	ok = c16And(ok, new(big.Int).And(nb, ob).Cmp(ob) == 0)
+	vs.Assert(ok, "Add(d) makes Test(d) true and clears no bit")
 }
 
 // c16And is a non-short-circuit conjunction (a pure diamond: no path fork).
